@@ -94,6 +94,11 @@ impl RustRuleEngine {
         self.sync_workflow_agenda_activations();
 
         for cycle in 0..self.config.max_cycles {
+            #[cfg(feature = "verif-hooks")]
+            crate::verif_hooks::emit(crate::verif_hooks::Event::ForwardPass {
+                entry: "execute_with_callback",
+                cycle,
+            });
             cycle_count = cycle + 1;
             let mut any_rule_fired = false;
             let mut fired_rules_in_cycle = std::collections::HashSet::new();
@@ -468,6 +473,11 @@ impl RustRuleEngine {
         }
 
         for cycle in 0..self.config.max_cycles {
+            #[cfg(feature = "verif-hooks")]
+            crate::verif_hooks::emit(crate::verif_hooks::Event::ForwardPass {
+                entry: "execute_at_time",
+                cycle,
+            });
             cycle_count = cycle + 1;
             let mut any_rule_fired = false;
             let mut fired_rules_in_cycle = std::collections::HashSet::new();
